@@ -519,6 +519,10 @@ func (e *engine) explore(entry *ssa.Function, args []value, qlog func(int) *stri
 			}
 			if (e.maxPaths > 0 && res.Paths+len(work) > e.maxPaths) || (e.maxSeconds > 0 && time.Since(t0).Seconds() > float64(e.maxSeconds)) {
 				res.Truncated = true
+				// the budget is spent: what is still queued is dropped too
+				// (reported as truncated), not drained at seconds per path
+				pending -= len(work)
+				work = nil
 			} else {
 				for _, a := range r.alts {
 					work = append(work, a)
